@@ -19,7 +19,7 @@ def load_claims():
             out[info["PROP"]] = info["MANIFEST"]
     return out
 # properties whose check has been integrated and verified by the coordinator (exit 0 on the unchanged tree, several seeds)
-ENABLED = ["C06", "C10", "C12", "C17", "C18", "C19"]
+ENABLED = ["C06", "C08", "C10", "C12", "C17", "C18", "C19"]
 CLAIMED = {k: v for k, v in load_claims().items() if k in ENABLED}
 NOT_APPLICABLE = {}
 def main():
